@@ -176,4 +176,77 @@ theorem bucketize_nodup (f : α → κ) (g : α → β) (kf : κ → Bool) (xs :
     (keysOf (bucketize f g kf xs)).Nodup :=
   bucketLoop_nodup f g kf xs [] (by simp [keysOf])
 
+theorem bucketOf_ne_nil_kf (f : α → κ) (g : α → β) (kf : κ → Bool) (k : κ) (xs : List α)
+    (h : bucketOf f g kf k xs ≠ []) : kf k = true := by
+  cases hk : kf k with
+  | true => rfl
+  | false => simp [bucketOf, hk] at h
+
+theorem bucketOf_of_kf (f : α → κ) (g : α → β) (kf : κ → Bool) (k : κ) (xs : List α) (h : kf k = true) :
+    bucketOf f g kf k xs = (xs.filter (fun x => decide (f x = k))).map g := by
+  simp [bucketOf, h]
+
+theorem bucketize_spec (f : α → κ) (g : α → β) (kf : κ → Bool) (src : List α) :
+    (keysOf (bucketize f g kf src)).Nodup ∧
+    (∀ e ∈ bucketize f g kf src,
+        e.2 = (src.filter (fun x => decide (f x = e.1))).map g ∧ e.2 ≠ [] ∧ kf e.1 = true) ∧
+    (∀ x ∈ src, kf (f x) = true → ∃ e ∈ bucketize f g kf src, e.1 = f x) ∧
+    sumLens (bucketize f g kf src) = (src.filter (fun x => kf (f x))).length := by
+  have hn := bucketize_nodup f g kf src
+  refine ⟨hn, ?_, ?_, ?_⟩
+  · intro e he
+    obtain ⟨k, vs⟩ := e
+    have hl := lookup_of_mem_nodup hn he
+    rw [bucketize_lookup] at hl
+    by_cases hb : bucketOf f g kf k src = []
+    · simp [hb] at hl
+    · simp only [hb, ↓reduceIte, Option.some.injEq] at hl
+      have hkf := bucketOf_ne_nil_kf f g kf k src hb
+      subst hl
+      exact ⟨bucketOf_of_kf f g kf k src hkf, hb, hkf⟩
+  · intro x hx hkf
+    have hb : bucketOf f g kf (f x) src ≠ [] := by
+      rw [bucketOf_of_kf f g kf _ src hkf]
+      intro h
+      have hm : x ∈ src.filter (fun y => decide (f y = f x)) := by simp [hx]
+      rw [List.map_eq_nil_iff] at h
+      rw [h] at hm
+      simp at hm
+    have hl := bucketize_lookup f g kf (f x) src
+    simp only [hb, ↓reduceIte] at hl
+    exact ⟨_, lookup_some_mem hl, rfl⟩
+  · unfold bucketize
+    rw [bucketLoop_sumLens]
+    simp [sumLens]
+
+theorem partition_spec (f : α → κ) (t fl : κ) (src : List α) :
+    partition f t fl src =
+      (src.filter (fun x => decide (f x = t)), src.filter (fun x => decide (f x = fl))) := by
+  have h : ∀ k, (lookup k (bucketize f id (fun _ => true) src)).getD [] =
+      src.filter (fun x => decide (f x = k)) := by
+    intro k
+    rw [bucketize_lookup, bucketOf_of_kf f id (fun _ => true) k src rfl]
+    simp only [List.map_id_fun, id_eq]
+    split
+    · rename_i h; simp [h]
+    · simp
+  simp only [partition, h]
+
+theorem partition_bool_spec (f : α → κ) (t fl : κ) (hne : t ≠ fl) (src : List α)
+    (hb : ∀ x ∈ src, f x = t ∨ f x = fl) :
+    ((partition f t fl src).1 ++ (partition f t fl src).2).Perm src ∧
+    (partition f t fl src).1.Sublist src ∧ (partition f t fl src).2.Sublist src := by
+  rw [partition_spec]
+  refine ⟨?_, List.filter_sublist, List.filter_sublist⟩
+  have : src.filter (fun x => decide (f x = fl)) = src.filter (fun x => !decide (f x = t)) := by
+    apply List.filter_congr
+    intro x hx
+    rcases hb x hx with h | h
+    · have : ¬ t = fl := hne
+      simp [h, this]
+    · have : ¬ fl = t := fun e => hne e.symm
+      simp [h, this]
+  simp only [this]
+  exact List.filter_append_perm _ src
+
 end C09
